@@ -89,6 +89,10 @@ def data_for(d, seed, storage):
     X = gen.design(rng, N, P, rho=0.5, density=0.6 if storage != "dense" else 1.0)
     if d in ("Logistic", "LogisticGroup", "QuadraticSVC"):
         y = gen.target(rng, X, "clf")
+        # two identical samples with opposite labels: the classes are not separable, so the
+        # (possibly unpenalised) problem has a finite minimiser
+        X[1] = X[0]
+        y[0], y[1] = 1.0, -1.0
     elif d == "Poisson":
         y = gen.target(rng, X, "count")
     elif d == "Gamma":
